@@ -11,7 +11,7 @@ Canon(k, st) == IF k \in {"vec", "deque", "list"} THEN st
                 ELSE LET ks == SelectSeq(<<1, 2, 3, 4>>, LAMBDA x : x \in DOMAIN st) IN [j \in 1..Len(ks) |-> <<ks[j], st[ks[j]]>>]
 NoDone(o) == o.o # "done"
 GInit == /\ kind \in Kinds /\ s0 \in States(kind) /\ s = s0 /\ op = [o |-> "none"] /\ hist = <<>>
-         /\ subAt \in 0..(Depth - 1) /\ mode \in (IF kind = "list" THEN {"incr"} ELSE {"snap", "incr"})
+         /\ subAt \in 0..Depth /\ mode \in (IF kind = "list" THEN {"incr"} ELSE {"snap", "incr"})
 GNext == /\ Len(hist) < Depth
          /\ \E o \in Ops(kind, s) :
               /\ (Len(hist) < Depth - 1 => NoDone(o))          \* done only as the last operation
